@@ -346,6 +346,16 @@ pub fn run_check(a: &CheckArgs) -> CheckResult {
     let _ = std::fs::create_dir_all(&workdir);
     let replays = format!("{}/replays", verif_root());
     let _ = std::fs::create_dir_all(&replays);
+    // replay files of earlier runs of this property are stale once the check runs again
+    if let Ok(rd) = std::fs::read_dir(&replays) {
+        for e in rd.filter_map(|e| e.ok()) {
+            if let Some(n) = e.file_name().to_str() {
+                if n.starts_with(&format!("{}-", a.prop)) && a.label.ends_with("-std") {
+                    let _ = std::fs::remove_file(e.path());
+                }
+            }
+        }
+    }
     let known = load_known_findings();
 
     let w = a.workers.max(1).min(total.max(1) as u32);
